@@ -369,11 +369,15 @@ def parseAssignment (this : Option Assignment) : P Assignment :=
         bind (expect none (inc (tk ctx .Semic)) .MissingTrailingSemic) (fun _ =>
           pure' (v, e)))))))
 
-def stmtParseError : P Stmt :=
-  pmap (fun (p : List Token × AstInfo) =>
+/-- `Statement::parse::parse_error`: on failure the error carries the ORIGINAL input (the leading
+    comments are not consumed — they belong to what follows, e.g. the next declaration). -/
+def stmtParseError : P Stmt := fun s =>
+  match (pmap (fun (p : List Token × AstInfo) =>
       Stmt.error { p.2 with errors := p.2.errors ++
         [⟨p.2.range, .UnexpectedCharacters (p.1.flatMap (fun t => displayToken t.ty))⟩] })
-    (info (bind (docComments ctx) (fun _ => ignoreUntil1 ctx (peek (la ctx .stmt)) (loopFuel ctx))))
+    (info (bind (docComments ctx) (fun _ => ignoreUntil1 ctx (peek (la ctx .stmt)) (loopFuel ctx))))) s with
+  | .err k _ => .err k s
+  | r => r
 
 mutual
   /-- `Statement::parse`. -/
